@@ -96,7 +96,16 @@ func (n *FanoutNode) Run(ctx context.Context) error {
 								// routine that actually acked the message
 								return msg.Ack()
 							case <-msg.Nacked():
-								return cerrors.New("message was nacked by another node")
+								// another branch rejected the message; Nack is
+								// idempotent and returns the value of the first
+								// call. If that nack was absorbed (the record is
+								// in the DLQ and acked to the source) the branches
+								// that confirmed the message carry on, just like
+								// the branch that rejected it does.
+								if err := msg.Nack(nil, n.ID()); err != nil {
+									return cerrors.Errorf("message was nacked by another node: %w", err)
+								}
+								return nil
 							}
 						}),
 					)
